@@ -331,6 +331,33 @@ def kNearestFrom (init : Option α) (sqrt : α → α) (q : QT α) (pt : Pt α) 
     let st := visit (nearestVisitor sqrt pt filter k) q.root (rootCell q.bound) [] st0
     drain st.heap.size st.heap []
 
+/-! ### the call `q.KNearestMatching(buf, pt, k, filter, maxDistance...)` as its caller sees it -/
+
+/-- `maxDistance ...float64`: the code tests `len(maxDistance) > 0` and reads `maxDistance[0]`;
+    further elements are ignored. -/
+def limitOf (maxDistance : List α) : Option α := maxDistance.head?
+
+/-- One call, with the caller's variadic argument made explicit: the answer, and the contents of the
+    `maxDistance` slice AFTER the call.  When the call is written `lims...` the parameter is the
+    caller's own slice (Go makes no copy), so an assignment to `maxDistance[0]` inside the library
+    would be visible to the caller and to every later call made with the same slice.  The code has
+    no such assignment — it computes `maxDistance[0] * maxDistance[0]` into the visitor — hence the
+    slice comes back as it went in: THE LIMIT IS A VALUE. -/
+def kNearestCall (init : Option α) (sqrt : α → α) (q : QT α) (pt : Pt α) (k : Nat) (filter : Ptr α → Bool)
+    (maxDistance : List α) : List (Ptr α) × List α :=
+  (kNearestFrom init sqrt q pt k filter (limitOf maxDistance), maxDistance)
+
+/-- A caller that keeps its limits in ONE slice and issues the queries `(pt, k, filter)` one after
+    the other, every one as `q.KNearestMatching(nil, pt, k, filter, lims...)`: the answers in order
+    and the slice at the end. -/
+def kNearestCalls (init : Option α) (sqrt : α → α) (q : QT α) :
+    List (Pt α × Nat × (Ptr α → Bool)) → List α → List (List (Ptr α)) × List α
+  | [], lims => ([], lims)
+  | (pt, k, f) :: rest, lims =>
+    let r := kNearestCall init sqrt q pt k f lims
+    let rs := kNearestCalls init sqrt q rest r.2
+    (r.1 :: rs.1, rs.2)
+
 /-- `make(maxHeap, 0, k+1)` in `KNearestMatching` panics ("makeslice: cap out of range") when `k+1`
     wraps around (k = MaxInt64) or `(k+1) * 24` bytes (a `heapItem` is an interface and a float64)
     exceed the runtime's `maxAlloc` = 2^48 on linux/amd64.  The call is reached only for a non-nil
